@@ -228,6 +228,9 @@ func init() {
 		e.Assert(a[0].(*Term), argStr(e, a[1], "AssertKF"), argStr(e, a[2], "AssertKF"), a[3].(*Term))
 		return nil
 	}
+	intrinsics[zz+"KnownOpen"] = func(e *Exec, fn *ssa.Function, a []Value, c *Frame) Value {
+		return e.tt.Bool(e.kf[argStr(e, a[0], "KnownOpen")])
+	}
 	intrinsics[zz+"Cover"] = func(e *Exec, fn *ssa.Function, a []Value, c *Frame) Value {
 		e.covers[argStr(e, a[0], "Cover")] = true
 		return nil
